@@ -21,6 +21,8 @@ pub struct Dumper<'a> {
   /// `E::LocalId` nodes whose expression location differs from the location of their identifier
   /// (everything that navigates by position relies on the two being equal)
   pub loc_mismatch: Vec<String>,
+  /// (expression form, child position) pairs that directly hold a local-variable use
+  pub var_positions: std::collections::BTreeSet<String>,
 }
 
 impl<'a> Dumper<'a> {
@@ -33,6 +35,7 @@ impl<'a> Dumper<'a> {
       out: String::new(),
       occurrences: Vec::new(),
       loc_mismatch: Vec::new(),
+      var_positions: std::collections::BTreeSet::new(),
     };
     d.loc(&Location::dummy()); // id 0 = dummy
     d
@@ -301,7 +304,67 @@ impl<'a> Dumper<'a> {
     self.close();
   }
 
+  fn note(&mut self, form: &str, slot: &str, child: &expr::E<()>) {
+    if matches!(child, expr::E::LocalId(_, _)) {
+      self.var_positions.insert(format!("{form}.{slot}"));
+    }
+  }
+
+  fn note_block(&mut self, form: &str, slot: &str, b: &expr::Block<()>) {
+    if let Some(f) = &b.expression {
+      self.note(form, slot, f);
+    }
+  }
+
   pub fn expr(&mut self, e: &expr::E<()>) {
+    // which child positions of which expression forms hold a variable use (coverage of the families)
+    match e {
+      expr::E::Literal(_, _) | expr::E::LocalId(_, _) | expr::E::ClassId(_, _, _) => {}
+      expr::E::Tuple(_, es) => {
+        for x in &es.expressions {
+          self.note("Tuple", "element", x);
+        }
+      }
+      expr::E::FieldAccess(f) => self.note("FieldAccess", "object", &f.object),
+      expr::E::MethodAccess(f) => self.note("MethodAccess", "object", &f.object),
+      expr::E::Unary(u) => self.note("Unary", "argument", &u.argument),
+      expr::E::Call(c) => {
+        self.note("Call", "callee", &c.callee);
+        for a in &c.arguments.expressions {
+          self.note("Call", "argument", a);
+        }
+      }
+      expr::E::Binary(b) => {
+        self.note("Binary", "e1", &b.e1);
+        self.note("Binary", "e2", &b.e2);
+      }
+      expr::E::IfElse(i) => {
+        match i.condition.as_ref() {
+          expr::IfElseCondition::Expression(g) => self.note("IfElse", "condition", g),
+          expr::IfElseCondition::Guard(_, g) => self.note("IfElse", "guard-matched", g),
+        }
+        self.note_block("IfElse", "then", &i.e1);
+        if let expr::IfElseOrBlock::Block(b) = i.e2.as_ref() {
+          self.note_block("IfElse", "else", b);
+        }
+      }
+      expr::E::Match(m) => {
+        self.note("Match", "matched", &m.matched);
+        for c in &m.cases {
+          self.note("Match", "case-body", &c.body);
+        }
+      }
+      expr::E::Lambda(l) => self.note("Lambda", "body", &l.body),
+      expr::E::Block(b) => {
+        for st in &b.statements {
+          match st {
+            expr::Statement::Declaration(d) => self.note("Block", "let-value", &d.assigned_expression),
+            expr::Statement::Expression(x) => self.note("Block", "statement", x),
+          }
+        }
+        self.note_block("Block", "final", b);
+      }
+    }
     match e {
       expr::E::Literal(_, _) | expr::E::ClassId(_, _, _) => self.leaf("seq", None, 0),
       expr::E::LocalId(common, id) => {
